@@ -1,0 +1,16 @@
+//go:build verif
+
+package pa
+
+// Hooks for the verification harness (/verif, property C20). Add-only, compiled only with
+// the build tag `verif`.
+
+// VerifDetect runs the protocol detection of a connection returned by the adaptive
+// listener's Accept exactly as its Read/Write would, without entering the selected stack.
+func VerifDetect(c *ProtocolSwitchServerConn) error { return c.detect() }
+
+// VerifDetectConn returns the header-replaying connection handed to the selected stack.
+func VerifDetectConn(c *ProtocolSwitchServerConn) *ProtocolDetectConn { return c.p }
+
+// VerifVersion returns the record version noted by ReadFirstHeader.
+func VerifVersion(c *ProtocolDetectConn) (major, minor uint8) { return c.protocolVersion() }
